@@ -1,11 +1,11 @@
 """C10 - qvector is an exact array of fixed-size elements under every growth policy."""
 import os, random
 import vf, pipeline
-from vector_common import *
+import vector_common
 
 
 def run(chk, tier, seed):
-    vector_pipeline(chk, tier, seed, owned={"result", "state"}, flagsets=[""], modes=["plain"])
+    pipeline.run_container(chk, tier, seed, vector_common, owned={"result", "state"})
     chk.cov["exhaustive"] = not chk.infra
     chk.cov["rule"] = ("every transition of the Vector.tla model (all operations x every index in [-n-2,n+2] x values, "
                        "for each policy/initial capacity) replayed on the real qvector for several element sizes and "
